@@ -44,6 +44,8 @@ def case_facts(c):
         last = comps[-1] if comps else b""
         f["final_component"] = last.decode("latin1")
         f["all_paths"] = [q.decode("latin1") for q in paths]
+        # the parent part of a path (what a single-entry operation looks up) ends in '/': "e//f" -> "e/"
+        f["parent_trailing_slash"] = any(q[:q.rfind(b"/")].endswith(b"/") for q in paths if b"/" in q)
         f["any_path_empty"] = any(q == b"" for q in paths)
         f["any_path_has_nul"] = any(b"\0" in q for q in paths)
     f["res"] = " ".join(c.res)
